@@ -321,4 +321,18 @@ example :
     (RawProp.mk 6 [97] (.array (some 1) 3 (some (2, 1)) none)).HeaderWF := by
   refine ⟨rfl, ?_, ?_, ?_⟩ <;> simp [RawProp.HeaderWF]
 
+/-- **The entry-store tail follows the source** (`gen_entryStoreTail`): kind byte, entry count, flag and the
+    whole layout header (entry size, variant count, property count, every property header) of the writer
+    model are the byte image of the writes of `EntryStore::serialize_tail`, `Entry::serialize` and
+    `Property::serialize` as translated on every run. -/
+theorem c14_entry_store_tail_follows_source (l : LayoutOut) (n : Nat) (srcC : List Generated.SrcProperty)
+    (srcV : List (List Generated.SrcProperty))
+    (hc : l.common.map RawProp.toSrc = srcC.map some)
+    (hv : l.variants.flatten.map RawProp.toSrc = srcV.flatten.map some)
+    (hlen : srcV.length = l.variants.length)
+    (hw : ∀ p ∈ l.common ++ l.variants.flatten, p.HeaderWF) (hn : n < 2 ^ 32) :
+    entryStoreTail l n = writesBytes (Generated.entryStoreTailWrites n
+      (Generated.entryLayoutWrites l.entrySize (l.common ++ l.variants.flatten).length srcC srcV)) :=
+  gen_entryStoreTail l n srcC srcV hc hv hlen hw hn
+
 end Jubako
